@@ -69,6 +69,10 @@ Inductive op :=
 Inductive pdown :=
 | PDFail (r : req_local) (zone_rec : option (N * option name))   (* failure rcode; the resolver may have recorded a zone failure first *)
 | PDUseful (zone_clear : option (N * option name))              (* NOERROR / NXDOMAIN / NODATA, stored unscoped *)
+  (* the same for an ECS audience with a response SCOPE > 0: the answer is filed under the
+     (clamped) scope, so the write touches no failure state of the shared audience; the
+     recovery still resets the CLIENT's audience and the zones above the name *)
+| PDUsefulScoped (zone_clear : option (N * option name))
 | PDTrunc.
 Inductive pstep :=
 | PAdvance (dt : Z)
@@ -213,6 +217,13 @@ Section Run.
                       | None => s
                       end in
             (serve_writeback H c s1 k (DUseful false) now, pkey_of k :: pos, PADownstream)
+        | PDUsefulScoped zc =>
+            let s1 := match zc with
+                      | Some (qc, z) => st_clear_zone_failure H s qc z
+                      | None => s
+                      end in
+            (* audience-scoped answers are outside the set model of the answer cache: the driver drops them at once *)
+            (serve_writeback H c s1 k (DUseful true) now, pos, PADownstream)
         | PDTrunc => (s, pos, PADownstream)
         end
     end.
@@ -239,7 +250,7 @@ Fixpoint run_psteps (H : qkey -> N) (c : cfg) (s : store) (pos : list pkey) (now
             (calls =? 1) && negb (opt_N_eqb ede (Some ede_cached_error)) &&
             match d with
             | PDFail _ _ => negb (rcode =? 0)%N
-            | PDUseful _ => negb (rcode =? rcode_servfail)%N
+            | PDUseful _ | PDUsefulScoped _ => negb (rcode =? rcode_servfail)%N
             | PDTrunc => true
             end
         end && (st_failure_len s1 =? flen) in
@@ -549,6 +560,13 @@ Fixpoint spec_psteps (init max : Z) (disabled : bool) (l : pledger) (pos : list 
                       | _ => l
                       end in
             pldel_if (fun x => covers_reset K x || covers_reset (mk_qkey (qk_name K) (qk_type K) (qk_class K) (qk_cd K) None) x) l1
+        | PDUsefulScoped zc =>
+            (* an answer for one ECS audience says nothing about the shared audience's failures *)
+            let l1 := match zc with
+                      | Some (qc, Some z) => pldel_if (ekey_eqb (EZ (norm_zkey (mk_zkey z qc)))) l
+                      | _ => l
+                      end in
+            pldel_if (covers_reset K) l1
         | PDTrunc => l
         end in
       ok_ede && ok_cached && ok_off && spec_psteps init max disabled l' pos now r
